@@ -294,6 +294,22 @@ thread_local! {
     static LOG: RefCell<Vec<String>> = RefCell::new(Vec::new());
 }
 
+thread_local! {
+    static COUNTDOWN: Cell<Option<usize>> = Cell::new(None);
+}
+
+/// fault injection (C13): every user closure handed to the crate calls this first
+fn tick() {
+    COUNTDOWN.with(|c| match c.get() {
+        None => {}
+        Some(k) if k <= 1 => {
+            c.set(None);
+            panic!("verif-user-panic");
+        }
+        Some(k) => c.set(Some(k - 1)),
+    });
+}
+
 fn log(s: String) {
     LOG.with(|l| l.borrow_mut().push(s));
 }
@@ -301,6 +317,7 @@ fn log(s: String) {
 macro_rules! cut_fns {
     ($($name:ident $c:expr),*) => {
         $(fn $name(a: &V, b: &V) -> bool {
+            tick();
             let (m, node) = FN_CUT.with(|t| t.borrow().get(&$c).copied().unwrap_or((0, usize::MAX)));
             let r = emod(to_int(a), m) == emod(to_int(b), m);
             log(format!("cut c{}@n{} ({:?},{:?})->{}", $c, node, a, b, r));
@@ -359,6 +376,7 @@ fn expert_add(ctx: &C, n: usize, child: usize, cb: bool) -> usize {
         let slots = eh.slots.clone();
         let me = n;
         eh.node.add_dependency_with(&child_incr, move |v: &V| {
+            tick();
             log(format!("inv cb@n{} ({:?})->d{}", me, v, dep_id));
             slots.borrow_mut().insert(dep_id, v.clone());
         })
@@ -522,6 +540,7 @@ fn do_subscribe(ctx: &C, o: usize, h: usize) -> Result<usize, incremental::Obser
     let ctx2 = ctx.clone();
     let tok_ix2 = tok_ix.clone();
     let r = ob.try_subscribe(move |u: Update<&V>| {
+        tick();
         let s = match u {
             Update::Initialised(v) => format!("Initialised {:?}", v),
             Update::Changed(v) => format!("Changed {:?}", v),
@@ -597,6 +616,7 @@ fn elab_instr(ctx: &C, loc: &[usize], lhs: &V, i: &Instr) -> Option<usize> {
                     let f = *f;
                     let out = pair.map(move |(x, y): &(V, V)| {
                         let p = V::Pair(Rc::new((x.clone(), y.clone())));
+                        tick();
                         run_effects_arg(&ctx2, &fd.effects, to_int(&p));
                         let r = apply_fn(&fd, &[&p]);
                         log(format!("inv f{}@n{} ({:?})->{:?}", f, me2.get(), p, r));
@@ -613,6 +633,7 @@ fn elab_instr(ctx: &C, loc: &[usize], lhs: &V, i: &Instr) -> Option<usize> {
             let ctx2 = ctx.clone();
             let f = *f;
             let call = move |xs: &[&V]| -> V {
+                tick();
                 run_effects_arg(&ctx2, &fd.effects, xs.first().map_or(0, |x| to_int(x)));
                 let r = apply_fn(&fd, xs);
                 log(format!("inv f{}@n{} ({})->{:?}", f, me2.get(), fmt_args(xs), r));
@@ -643,6 +664,9 @@ fn elab_instr(ctx: &C, loc: &[usize], lhs: &V, i: &Instr) -> Option<usize> {
             // the fold closure is called once per child; log one `inv` per pass, when the last child is folded
             let seen: Rc<RefCell<Vec<V>>> = Rc::new(RefCell::new(vec![]));
             let out = state.fold(ins, init.clone(), move |acc: V, x: &V| {
+                if seen.borrow().is_empty() {
+                    tick();
+                }
                 let r = V::Int(emod(a * to_int(&acc) + b * to_int(x) + c, m));
                 let mut s = seen.borrow_mut();
                 s.push(x.clone());
@@ -680,6 +704,7 @@ fn elab_instr(ctx: &C, loc: &[usize], lhs: &V, i: &Instr) -> Option<usize> {
             let me2 = me.clone();
             let g = *g;
             let out = input.map_with_old(move |old: Option<V>, x: &V| {
+                tick();
                 let (new, did) = match &kind {
                     OldKind::Sum(m) => {
                         let new = V::Int(emod(old.as_ref().map_or(0, to_int) + to_int(x), *m));
@@ -709,6 +734,7 @@ fn elab_instr(ctx: &C, loc: &[usize], lhs: &V, i: &Instr) -> Option<usize> {
             let me2 = me.clone();
             let b = *b;
             let out = lhs_node.bind(move |v: &V| {
+                tick();
                 // the model names the closure invocation after the lhs-change node = main - 1
                 log(format!("inv b{}@n{} ({:?})->", b, me2.get().wrapping_sub(1), v));
                 let i = emod(to_int(v), k as i64) as usize;
@@ -744,6 +770,7 @@ fn elab_instr(ctx: &C, loc: &[usize], lhs: &V, i: &Instr) -> Option<usize> {
                 ExpertNode::<V>::new_(
                     &state.weak(),
                     move || {
+                        tick();
                         let mut acc = 0i64;
                         for (d, cb) in edges.borrow().iter() {
                             if kind == 0 {
@@ -784,6 +811,7 @@ fn elab_instr(ctx: &C, loc: &[usize], lhs: &V, i: &Instr) -> Option<usize> {
                     let m = ctx.defs.borrow().cuts.get(c).copied().unwrap_or(0);
                     let c = *c;
                     node.set_cutoff_fn_boxed(move |a: &V, b: &V| {
+                        tick();
                         let r = emod(to_int(a), m) == emod(to_int(b), m);
                         log(format!("cut c{}@n{} ({:?},{:?})->{}", c, nix, a, b, r));
                         r
@@ -933,6 +961,14 @@ fn action(ctx: &C, toks: &[&str]) -> String {
             let n = resolve_ix(ctx, &[], &parse_opnd(e).unwrap());
             let c = resolve_ix(ctx, &[], &parse_opnd(c).unwrap());
             format!("ok d{}", expert_add(ctx, n, c, *cb == "cb"))
+        }
+        ["arm", k] => {
+            COUNTDOWN.with(|c| c.set(Some(k.parse().unwrap())));
+            "ok".into()
+        }
+        ["setmaxheight", k] => {
+            st(ctx).set_max_height_allowed(k.parse().unwrap());
+            "ok".into()
         }
         ["stabilise"] => {
             st(ctx).stabilise();
